@@ -74,6 +74,8 @@ class World:
         self.oi = 0
         self.max_running = max_running  # bound on the number of "still running" observations in one schedule
         self.n_running = 0
+        self.max_fail = None  # bound on the number of failed completions in one schedule
+        self.n_fail = 0
         self.perms = list(perms)
         self.pi = 0
         self.dts = list(dts)
@@ -158,6 +160,10 @@ class ShimAsyncio:
                 finished.add(f)
                 w.events.append(("complete", f.op, f.inp, f.uid, "ok"))
             elif o == 2:
+                if w.max_fail is not None:
+                    w.n_fail += 1
+                    if w.n_fail > w.max_fail:
+                        raise sx.Unreachable()
                 f._done = True
                 f.exc = TaskError(f.inp, f.uid)
                 finished.add(f)
